@@ -47,6 +47,48 @@ def check_entities(run, src, file, nodes, stats, label):
     return True
 
 
+def odd_paths(run, stats):
+    """directories and files whose names contain blanks, non-ASCII letters, %, #, brackets: the reported file is the file"""
+    root = C.scratch("c04 odd")
+    try:
+        names = ["my app/src/Alpha.java", "Größe.java", "a#b/Hash.java", "100%/Percent.java", "Two Words.java", "Two%20Words.java", "q?x/[b]/Quest.java", "plain/Plain.java", "日本/名前.java"]
+        srcs = {}
+        for i, rel in enumerate(names):
+            p = os.path.join(root, rel)
+            os.makedirs(os.path.dirname(p), exist_ok=True)
+            text = "class C%d {\n  int f%d = %d;\n\n  int m%d(int a) {\n    return a + %d;\n  }\n}\n" % (i, i, i, i, i)
+            open(p, "w", encoding="utf-8").write(text)
+            srcs[p] = text.encode("utf-8")
+        from checks import c18
+        for out_mode in ("json",):
+            rc, so, se = C.cli(["query", "--project", root, "--query", "FROM method_declaration AS md SELECT md.getName()", "--output", out_mode, "--disable-metrics"], timeout=300)
+            run.count(("odd-paths", out_mode))
+            stats["odd_path_files"] += len(names)
+            try:
+                doc = json.loads(c18.last_json(so))
+            except Exception:
+                doc = None
+            if rc != 0 or doc is None:
+                run.violation("C04:odd-paths-scan-failed", "the scan of a project whose paths contain blanks, %%, #, non-ASCII letters ends with rc=%s and no report" % rc, dict(names=names))
+                return
+            seen = collections.Counter()
+            for e in doc.get("result_set") or []:
+                src = srcs.get(e["file"])
+                seen[e["file"]] += 1
+                if src is None:
+                    run.violation("C04:wrong-file", "a method is reported for %r, which is not one of the scanned files (%s)" % (e["file"], ", ".join(sorted(os.path.relpath(f, root) for f in srcs))[:300]),
+                                  dict(reported=e["file"], names=names))
+                    return
+                if not location_ok(src, e["line"], e["code"].encode("utf-8")):
+                    run.violation("C04:location-mismatch", "method reported for %r line %s, but its snippet does not begin there" % (os.path.relpath(e["file"], root), e["line"]), dict(reported=e["file"], names=names))
+                    return
+            missing = [os.path.relpath(f, root) for f in srcs if seen[f] != 1]
+            if missing:
+                run.violation("C04:wrong-file", "every file declares one method; for %s the report has another number" % missing[:4], dict(names=names, counts={os.path.relpath(f, root): seen[f] for f in srcs}))
+    finally:
+        shutil.rmtree(root, ignore_errors=True)
+
+
 def big_project(run, rng, stats, quick):
     """a project with machine-generated sources of a megabyte and more that take seconds to parse (statements that stay
     ambiguous to their end), listed before ordinary large sources: every reported method of every file is where the
@@ -239,6 +281,7 @@ def run(run):
                         cur = (f, ln, i + 1)
         finally:
             shutil.rmtree(root, ignore_errors=True)
+        odd_paths(run, stats)
         big_project(run, rng, stats, quick)
     finally:
         h.close()
